@@ -24,6 +24,7 @@ from sa.symex import Interp
 
 RULES = {
     "R-C03-p": "the index-cube fill closures come in a traced and an untraced variant (timing diagnostics): both store the same cell values",
+    "R-C03-r": "with several fact columns and per-row weights the constructor fields stay (rows, columns): the weight vector is broadcast through paired transposes (X.T op w).T",
     "R-C03-q": "per configuration, a region that receives weight values is a float region and one that receives fact values is float or has the summed array's dtype (an integer region truncates on the store)",
     "R-C03-o": "the flat cell number the array cube hands to fill() is the SUM over all dimensions of the strided 1-D coordinate slices (reduce(operator.add, one slice per dimension)), None only when there is no dimension",
     "R-C03-n": "xfunc.bins presents every cell of range(size) with the mask coordinates == u (and, without a size, every distinct value with its rows): the per-cell fill loops of the array cube rest on it",
@@ -393,6 +394,11 @@ def main(tier):
     for rule, status, where, cons, detail, wit in CD.items:
         rep.add(rule, where, cons, status, detail, True, wit)
     rep.floor("R-C03-i", 20, nd)
+    CL = AT.Collector()
+    nl = AT.rule_row_layout(prog, CL, "R-C03-r", classes=("valid_count", "sum", "mean"))
+    for rule, status, where, cons, detail, wit in CL.items:
+        rep.add(rule, where, cons, status, detail, True, wit)
+    rep.floor("R-C03-r", 12, nl)
     CK = AT.Collector()
     nk = AT.rule_region_kind(prog, CK, "R-C03-q", modules=("ffuncs", "xfuncs"), classes=None)
     for rule, status, where, cons, detail, wit in CK.items:
